@@ -1,10 +1,10 @@
 package guards
 
 import (
-	"os"
 	"fmt"
 	"go/token"
 	"go/types"
+	"os"
 
 	"golang.org/x/tools/go/ssa"
 )
@@ -706,7 +706,6 @@ func (e *Engine) fieldStep(m *ssa.Function, fi int) (string, bool) {
 	}
 	return delta.String(), true
 }
-
 
 // ---------------------------------------------------------------------------
 // consuming a buffer in strides
